@@ -7,7 +7,7 @@ TRUSTED_BASE_COMMON = [
     "dependencies of litefs used but not modelled: github.com/superfly/ltx, bazil.org/fuse, net/http, Go runtime, Linux file system",
 ]
 
-HOOK_COMMITS = []
+HOOK_COMMITS = ["061d000"]
 NOT_APPLICABLE = {}
 
 PROPS = {
